@@ -274,6 +274,11 @@ class Interp:
         c = op_const(op)
         if c is None:
             return UNK
+        if c['k'] == 'other' and op.get('k') == 'const' and op['c'].get('k') == 'unevaluated' and op['c'].get('def') and op['c'].get('promoted') is None:
+            # a named constant whose evaluated value the exporter could not decode (a slice/array table): read its initialiser
+            v = self.named_const(op['c']['def'])
+            if v is not None:
+                return v
         if c['k'] in ('int', 'bool', 'char', 'str'):
             return C(c['v'])
         if c['k'] == 'float':
@@ -285,8 +290,32 @@ class Interp:
         if c['k'] == 'unevaluated' and c.get('promoted') is not None:
             return self.promoted(fn, c['promoted'])
         if c['k'] == 'unevaluated':
-            return ('assoc', c['def'])
+            v = self.named_const(c['def'])
+            return v if v is not None else ('assoc', c['def'])
         return UNK
+
+    def named_const(self, path):
+        """value of a crate constant whose initialiser's MIR was exported (tables such as `const ROLES: &[Role] = &[..]`), by
+        interpreting that initialiser; None when it is not available or not a single value"""
+        cache = self.prog.__dict__.setdefault('_const_vals', {})
+        if path in cache:
+            return cache[path]
+        cache[path] = None
+        from mirlib import Fn
+        for cj in self.prog.facts.get('consts') or []:
+            if cj.get('path') == path and cj.get('blocks'):
+                if cj.get('impl_self_ty'):
+                    break  # associated constants are read through their evaluated value by the rules that need them
+                j = dict(path='const ' + path, kind='Const', span=cj.get('span'), blocks=cj['blocks'], locals=cj['locals'], arg_count=0, name=None, promoted=cj.get('promoted') or [])
+                try:
+                    ps = Interp(self.prog, max_steps=20000).paths(Fn(j), [])
+                except Exception:
+                    ps = []
+                vals = [p[0] for p in ps if p[0] != ('diverge',)]
+                if len(vals) == 1 and fully_known(vals[0]):
+                    cache[path] = vals[0]
+                break
+        return cache[path]
 
     def promoted(self, fn, idx):
         for p in fn.j.get('promoted', []):
@@ -396,6 +425,29 @@ class Interp:
                     if pl is not None and not pl['p']:
                         env[pl['l']] = env[root['l']]
                     return ('tuple', ()), args
+        if self.vec_model and not c.get('local') and 'vec::Vec' in d and name in ('remove', 'swap_remove', 'pop') and args and args[0][0] == 'tuple' \
+                and (name == 'pop' or (len(args) == 2 and args[1][0] == 'c' and isinstance(args[1][1], int))):
+            el = list(args[0][1])
+            pl = op_place(t['args'][0])
+            root = resolve_place(fn, pl) if pl is not None else None
+            if root is not None and not root['p'] and env.get(root['l'], UNK) == args[0]:
+                if name == 'pop':
+                    res_ = SOME(el.pop()) if el else NONE
+                elif 0 <= args[1][1] < len(el):
+                    k_ = args[1][1]
+                    if name == 'swap_remove':
+                        res_ = el[k_]
+                        el[k_] = el[-1]
+                        el.pop()
+                    else:
+                        res_ = el.pop(k_)
+                else:
+                    res_ = None
+                if res_ is not None:
+                    env[root['l']] = ('tuple', tuple(el))
+                    if pl is not None and not pl['p']:
+                        env[pl['l']] = env[root['l']]
+                    return res_, args
         # `iter.map(f)` over a concrete element list, collected: f is applied to the elements in order; collecting into
         # Result<Vec<_>, _> / Option<Vec<_>> stops at the first Err / None and returns it (std: GenericShunt)
         if not c.get('local') and path_endswith(tr, 'iter::Iterator') and depth < self.max_depth:
@@ -456,6 +508,8 @@ class Interp:
             # std slice / Vec facts on a concrete element list
             if args and args[0][0] == 'tuple' and ('slice' in d or 'vec::Vec' in d or path_endswith(tr, 'convert::Into') or path_endswith(tr, 'convert::From') or path_endswith(tr, 'ops::Index')):
                 el = args[0][1]
+                if len(args) == 2 and name == 'contains' and 'slice' in d and fully_known(args[1]) and all(fully_known(x_) for x_ in el):
+                    return C(args[1] in el), args
                 if len(args) == 1:
                     if name == 'len':
                         return C(len(el)), args
@@ -516,6 +570,22 @@ class Interp:
                     env['__iter'] = cur
                     return SOME(args[0][2][i]), args
                 return NONE, args
+        # std str facts on constant strings (name tables keyed by string constants: `identifier.strip_prefix("math::")`)
+        if not c.get('local') and 'str' in d and args and args[0][0] == 'c' and isinstance(args[0][1], str) and all(a[0] == 'c' and isinstance(a[1], str) for a in args[1:2]):
+            s0 = args[0][1]
+            if name == 'strip_prefix' and len(args) == 2:
+                return (SOME(C(s0[len(args[1][1]):])) if s0.startswith(args[1][1]) else NONE), args
+            if name == 'strip_suffix' and len(args) == 2:
+                return (SOME(C(s0[:len(s0) - len(args[1][1])])) if s0.endswith(args[1][1]) else NONE), args
+            if name == 'starts_with' and len(args) == 2:
+                return C(s0.startswith(args[1][1])), args
+            if name == 'ends_with' and len(args) == 2:
+                return C(s0.endswith(args[1][1])), args
+            if name == 'split_once' and len(args) == 2 and args[1][1]:
+                i = s0.find(args[1][1])
+                return (SOME(('tuple', (C(s0[:i]), C(s0[i + len(args[1][1]):])))) if i >= 0 else NONE), args
+            if name == 'is_empty' and len(args) == 1:
+                return C(len(s0) == 0), args
         # predicates of a known character (std char methods; Python's str methods agree with them on the characters rules use)
         if self.const_chars and not c.get('local') and len(args) == 1 and args[0][0] == 'c' and isinstance(args[0][1], str) and len(args[0][1]) == 1 and 'char' in d:
             ch = args[0][1]
@@ -756,6 +826,11 @@ class Interp:
                 return OK(argv[0])
             if f[1] in ('std::result::Result::Err',) and len(argv) == 1:
                 return ERR(argv[0])
+            # value-preserving std conversions passed as function items (`.map(str::to_owned)`, `.map(<[_]>::to_vec)`, `.map(Clone::clone)`)
+            last = f[1].split('::')[-1].split('<')[0]
+            if len(argv) == 1 and last in ('to_owned', 'to_vec', 'clone', 'cloned', 'to_string', 'into', 'from', 'as_ref', 'borrow', 'as_str', 'as_slice', 'deref') \
+                    and any(k_ in f[1] for k_ in ('str', 'slice', 'ToOwned', 'Clone', 'String', 'Vec', 'convert', 'Borrow', 'Deref', 'AsRef')):
+                return argv[0]
             # a function item the crate does not define (std function, method of a generic parameter): the same term a direct call gives
             return ('app', f[1], tuple(argv))
         return None
